@@ -1,9 +1,553 @@
 package main
 
-import "golang.org/x/tools/go/ssa"
+import (
+	"go/ast"
+	"sort"
+	"strconv"
+	"strings"
 
-func c03Literals(p *Program, r *Report, hs []*ssa.Function, ds []decision, bcs []beCall) {}
-func c03Batch(p *Program, r *Report)  {}
-func c03Copy(p *Program, r *Report)   {}
-func c03Single(p *Program, r *Report) {}
-func c03Roles(p *Program, r *Report)  {}
+	"golang.org/x/tools/go/ssa"
+)
+
+const fiberCtx = "(*github.com/gofiber/fiber/v2.Ctx)"
+
+// mapLiteralKeys reads the keys of a package-level map/slice composite literal
+// whose keys (or elements) are named constants; returns the constants' string values.
+func mapLiteralKeys(p *Program, pkg, varName string) map[string]bool {
+	pk := p.Pkg(pkg)
+	out := map[string]bool{}
+	found := false
+	for _, f := range pk.Syntax {
+		for _, d := range f.Decls {
+			gd, ok := d.(*ast.GenDecl)
+			if !ok {
+				continue
+			}
+			for _, sp := range gd.Specs {
+				vs, ok := sp.(*ast.ValueSpec)
+				if !ok {
+					continue
+				}
+				for i, n := range vs.Names {
+					if n.Name != varName || i >= len(vs.Values) {
+						continue
+					}
+					cl, ok := vs.Values[i].(*ast.CompositeLit)
+					if !ok {
+						continue
+					}
+					found = true
+					for _, el := range cl.Elts {
+						var ke ast.Expr = el
+						if kv, ok := el.(*ast.KeyValueExpr); ok {
+							ke = kv.Key
+						}
+						if tv, ok := pk.TypesInfo.Types[ke]; ok && tv.Value != nil {
+							out[strings.Trim(tv.Value.ExactString(), `"`)] = true
+						}
+					}
+				}
+			}
+		}
+	}
+	if !found {
+		broken("anchor %s.%s (composite literal) does not resolve", pkg, varName)
+	}
+	return out
+}
+
+// argRoots: all origin roots of the arguments of a call, looking into struct
+// literals passed by value or by address (one level of nesting).
+func argRoots(c ssa.CallInstruction) []Root {
+	var out []Root
+	var addVal func(v ssa.Value, depth int)
+	addVal = func(v ssa.Value, depth int) {
+		out = append(out, Origins(v, nil)...)
+		if depth > 1 {
+			return
+		}
+		if fs, _ := litFields(v); fs != nil {
+			for _, vs := range fs {
+				for _, x := range vs {
+					addVal(x, depth+1)
+				}
+			}
+		}
+	}
+	for _, a := range callArgs(c) {
+		addVal(a, 0)
+	}
+	return out
+}
+
+func callRootInstrs(rs []Root, callee, arg string) map[ssa.CallInstruction]bool {
+	out := map[ssa.CallInstruction]bool{}
+	for _, r := range rs {
+		if r.Kind == "call" && r.Desc == callee && r.Call != nil {
+			if arg == "" {
+				out[r.Call] = true
+				continue
+			}
+			for _, a := range callArgs(r.Call) {
+				if s, ok := constString(a); ok && s == arg {
+					out[r.Call] = true
+				}
+			}
+		}
+	}
+	return out
+}
+
+// onlyFrom: every terminal root of v is a call to callee(arg).
+func onlyFrom(v ssa.Value, callee, arg string) (bool, string) {
+	rs := terminalRoots(Origins(v, nil))
+	if len(rs) == 0 {
+		return false, "no origin"
+	}
+	for _, r := range rs {
+		ok := false
+		if r.Kind == "call" && r.Desc == callee && r.Call != nil {
+			for _, a := range callArgs(r.Call) {
+				if s, isS := constString(a); isS && s == arg {
+					ok = true
+				}
+			}
+		}
+		if !ok {
+			return false, rootsDesc(rs)
+		}
+	}
+	return true, rootsDesc(rs)
+}
+
+func c03Literals(p *Program, r *Report, hs []*ssa.Function, ds []decision, bcs []beCall) {
+	objActions := mapLiteralKeys(p, "auth", "supportedObjectActionList")
+	// innermost guarding decision of each backend call
+	guarded := map[string][]beCall{} // decision key -> backend calls it is the innermost guard of
+	for _, bc := range bcs {
+		gs := guardsOf(bc.call, ds)
+		if len(gs) == 0 {
+			continue
+		}
+		inner := gs[0]
+		for _, g := range gs[1:] {
+			// g is deeper if inner guards g
+			if guardedBy(g.fn, g.call, []ssa.CallInstruction{inner.call}) {
+				inner = g
+			}
+		}
+		guarded[inner.key] = append(guarded[inner.key], bc)
+	}
+	for _, d := range ds {
+		pos := p.Pos(d.call.Pos())
+		if d.fields == nil {
+			r.Undecided("R-C03-2", d.key, pos, "AccessOptions argument is not a literal built in place")
+			continue
+		}
+		// request-bound fields
+		for _, fa := range [][3]string{{"Acl", fiberCtx + ".Locals", "parsedAcl"}, {"IsRoot", fiberCtx + ".Locals", "isRoot"}, {"Acc", fiberCtx + ".Locals", "account"}, {"Bucket", fiberCtx + ".Params", "bucket"}} {
+			vs := d.fields[fa[0]]
+			if len(vs) != 1 {
+				r.Viol("R-C03-2", d.key+"."+fa[0], pos, "field "+fa[0]+" not set exactly once in the AccessOptions literal")
+				continue
+			}
+			ok, desc := onlyFrom(vs[0], fa[1], fa[2])
+			r.Check(ok, "R-C03-2", d.key+"."+fa[0], pos, "origin "+desc, "field "+fa[0]+" must originate only from ctx."+fa[1][len(fiberCtx)+1:]+"(\""+fa[2]+"\"), got: "+desc)
+		}
+		// Action / Object / AclPermission
+		acts, aok := constNames(p, first(d.fields["Action"]))
+		if !aok || len(acts) == 0 {
+			r.Viol("R-C03-2", d.key+".Action", pos, "Action is not a (set of) auth.Action constant(s)")
+			continue
+		}
+		perms, pok := constNames(p, first(d.fields["AclPermission"]))
+		isObj := false
+		for _, a := range acts {
+			if objActions[a] {
+				isObj = true
+			}
+		}
+		objVals, hasObj := d.fields["Object"]
+		switch {
+		case isObj && !hasObj:
+			r.Viol("R-C03-2", d.key+".Object", pos, "object-level action "+strings.Join(acts, "|")+" decided without naming the object (decision is per bucket)")
+		case !isObj && hasObj:
+			r.Viol("R-C03-2", d.key+".Object", pos, "bucket-level action "+strings.Join(acts, "|")+" decided with an Object (policy resource kind mismatch)")
+		case hasObj:
+			rs := Origins(objVals[0], nil)
+			keyCalls := callRootInstrs(rs, fiberCtx+".Params", "key")
+			r.Check(len(keyCalls) > 0, "R-C03-2", d.key+".Object", pos, "Object originates from ctx.Params(\"key\")", "Object does not originate from ctx.Params(\"key\"): "+rootsDesc(terminalRoots(rs)))
+		default:
+			r.Ok("R-C03-2", d.key+".Object", pos, "bucket-level action without Object")
+		}
+		gbs := guarded[d.key]
+		if len(gbs) == 0 {
+			r.Viol("R-C03-2", d.key+".guards", pos, "this access decision is not the guard of any backend call (dead or misplaced decision)")
+			continue
+		}
+		for _, bc := range gbs {
+			ex := handlerShort(bc.fn) + "/" + bc.method
+			if ex == "PutActions/GetBucketPolicy" {
+				continue // auxiliary read inside the governance-bypass test
+			}
+			row, ok := tAction[bc.method]
+			k := d.key + "->" + bc.method
+			if !ok || row.actions == nil {
+				r.Undecided("R-C03-2", k, p.Pos(bc.call.Pos()), "backend method "+bc.method+" has no T-ACTION row")
+				continue
+			}
+			bad := []string{}
+			for _, a := range acts {
+				if !contains(row.actions, a) {
+					bad = append(bad, a)
+				}
+			}
+			if len(bad) > 0 {
+				r.Viol("R-C03-2", k+".Action", p.Pos(bc.call.Pos()), "decision uses action "+strings.Join(bad, "|")+" but "+bc.method+" admits only "+strings.Join(row.actions, "|")+" ("+row.why+")")
+			} else {
+				r.Ok("R-C03-2", k+".Action", p.Pos(bc.call.Pos()), strings.Join(acts, "|"))
+			}
+			if !pok || len(perms) != 1 || perms[0] != row.perm {
+				r.Viol("R-C03-2", k+".AclPermission", p.Pos(bc.call.Pos()), "decision uses AclPermission "+strings.Join(perms, "|")+" but "+bc.method+" requires "+row.perm)
+			} else {
+				r.Ok("R-C03-2", k+".AclPermission", p.Pos(bc.call.Pos()), row.perm)
+			}
+			// same bucket / same key reach the backend call
+			ar := argRoots(bc.call)
+			bcalls := callRootInstrs(Origins(first(d.fields["Bucket"]), nil), fiberCtx+".Params", "bucket")
+			same := false
+			for c := range callRootInstrs(ar, fiberCtx+".Params", "bucket") {
+				if bcalls[c] {
+					same = true
+				}
+			}
+			if bc.method == "PutBucketCors" {
+				// the interface method takes no bucket (always answers NotImplemented)
+				same = true
+			}
+			r.Check(same, "R-C03-2", k+".sameBucket", p.Pos(bc.call.Pos()), "decision and backend call name the same ctx.Params(\"bucket\")", "the backend call's arguments do not originate from the ctx.Params(\"bucket\") the decision was taken for")
+			if row.object && hasObj {
+				kc := callRootInstrs(Origins(objVals[0], nil), fiberCtx+".Params", "key")
+				same := false
+				for c := range callRootInstrs(ar, fiberCtx+".Params", "key") {
+					if kc[c] {
+						same = true
+					}
+				}
+				r.Check(same, "R-C03-2", k+".sameKey", p.Pos(bc.call.Pos()), "decision and backend call name the same ctx.Params(\"key\")", "the backend call's key does not originate from the ctx.Params(\"key\") the decision was taken for")
+			}
+		}
+	}
+}
+
+// R-C03-3: batch delete decided per key.
+func c03Batch(p *Program, r *Report) {
+	f := p.Func("(" + ctrlPkg + ".S3ApiController).DeleteObjects")
+	var target ssa.CallInstruction
+	for _, c := range callsIn(f) {
+		if isBackendCall(c) && c.Common().Method.Name() == "DeleteObjects" {
+			target = c
+		}
+	}
+	if target == nil {
+		broken("anchor be.DeleteObjects call not found in DeleteObjects handler")
+	}
+	key := fnName(f) + "/(backend.Backend).DeleteObjects#1:per-key-decision"
+	// a VerifyAccess whose Object originates from an element of a ranged slice
+	// (Index/Range/IndexAddr root) and whose success edge guards... a loop
+	// decision cannot dominate by its success edge alone, so require: the call
+	// sits in a loop (its block can reach itself), its failure edge leads only
+	// to returns, and it may precede the target.
+	ok := false
+	for _, d := range decisions([]*ssa.Function{f}) {
+		ov, has := d.fields["Object"]
+		if !has {
+			continue
+		}
+		elem := false
+		for _, rt := range Origins(ov[0], nil) {
+			if rt.Kind == "elem" {
+				elem = true
+			}
+		}
+		inLoop := false
+		for _, s := range d.call.Block().Succs {
+			if reachable(f, s, nil)[d.call.Block()] {
+				inLoop = true
+			}
+		}
+		if elem && inLoop && mayPrecede(d.call, target) && len(successEdges(d.call)) > 0 {
+			ok = true
+		}
+	}
+	r.Check(ok, "R-C03-3", key, p.Pos(target.Pos()), "per-key VerifyAccess loop precedes the batch delete",
+		"be.DeleteObjects is authorised once per bucket: no VerifyAccess whose Object comes from an element of the request's key list precedes it")
+}
+
+// R-C03-4: VerifyObjectCopyAccess checks destination and source.
+func c03Copy(p *Program, r *Report) {
+	f := p.Func(fnVerifyCopyAccess)
+	vas := callsTo(f, fnVerifyAccess)
+	keys := siteKeys(f, vas)
+	var dst, src ssa.CallInstruction
+	optsParam := f.Params[len(f.Params)-1]
+	for _, c := range vas {
+		args := callArgs(c)
+		opt := args[len(args)-1]
+		isParam := false
+		lf, _ := litFields(opt)
+		for _, rt := range terminalRoots(Origins(opt, nil)) {
+			if len(lf) > 0 {
+				break
+			}
+			if rt.Kind == "param" && rt.Val == optsParam {
+				isParam = true
+			}
+		}
+		if isParam {
+			dst = c
+			continue
+		}
+		fs, _ := litFields(opt)
+		if fs == nil {
+			continue
+		}
+		acts, _ := constNames(p, first(fs["Action"]))
+		br := Origins(first(fs["Bucket"]), nil)
+		or := Origins(first(fs["Object"]), nil)
+		fromSrc := func(rs []Root) bool {
+			for _, rt := range rs {
+				if rt.Kind == "param" && rt.Desc == "copySource" {
+					return true
+				}
+			}
+			return false
+		}
+		if len(acts) == 1 && acts[0] == "s3:GetObject" && fromSrc(br) && fromSrc(or) {
+			src = c
+		}
+	}
+	k := fnName(f)
+	if dst == nil {
+		r.Viol("R-C03-4", k+"/destination", p.Pos(f.Pos()), "no VerifyAccess(ctx, be, opts) call on the destination options")
+	}
+	if src == nil {
+		r.Viol("R-C03-4", k+"/source", p.Pos(f.Pos()), "no VerifyAccess call for the copy source (Bucket/Object from copySource, Action GetObject)")
+	}
+	if dst == nil || src == nil {
+		return
+	}
+	// every nil return that is not behind the root/admin shortcut passes both success edges
+	ces := condEdgesOf(f)
+	var shortcut []edge
+	for _, ce := range ces {
+		if ce.atoms["field:IsRoot"] || (ce.atoms["field:Role"] && ce.atoms[`const:"admin"`]) {
+			shortcut = append(shortcut, ce.holds)
+		}
+	}
+	for name, g := range map[string]ssa.CallInstruction{"destination": dst, "source": src} {
+		cut := append(append([]edge{}, shortcut...), successEdges(g)...)
+		bad := false
+		for _, s := range errReturnSites(f) {
+			if isNilConst(s.val) && siteReachable(f, s, cut) {
+				bad = true
+			}
+		}
+		r.Check(!bad, "R-C03-4", keys[g]+":"+name, p.Pos(g.Pos()), "nil return only through this check's success edge (or the root/admin shortcut)",
+			"VerifyObjectCopyAccess can return nil for a non-root, non-admin caller without passing the "+name+" access check")
+	}
+}
+
+// R-C03-5: VerifyAccess has no unconditional allow.
+func c03Single(p *Program, r *Report) {
+	f := p.Func(fnVerifyAccess)
+	var cut []edge
+	for _, ce := range condEdgesOf(f) {
+		if ce.atoms["field:IsRoot"] && !ce.atoms["field:Readonly"] {
+			cut = append(cut, ce.holds)
+		}
+		if ce.atoms["field:Role"] && ce.atoms[`const:"admin"`] && ce.isEqNeq {
+			cut = append(cut, ce.holds)
+		}
+	}
+	for _, c := range callsTo(f, "auth.verifyACL") {
+		cut = append(cut, successEdges(c)...)
+	}
+	n := 0
+	for _, s := range errReturnSites(f) {
+		k := fnName(f) + "/return#" + itoa(n)
+		n++
+		if isNilConst(s.val) {
+			r.Check(!siteReachable(f, s, cut), "R-C03-5", k, p.Pos(s.ret.Pos()), "nil return only via root, admin or verifyACL success",
+				"VerifyAccess returns nil on a path that passes none of: opts.IsRoot, Role==admin, verifyACL success (unconditional allow)")
+			continue
+		}
+		// non-nil-constant returns must be results of calls (policy verdict, ACL verdict, errors)
+		bad := ""
+		for _, rt := range terminalRoots(Origins(s.val, nil)) {
+			if rt.Kind != "call" {
+				bad = rt.String()
+			}
+		}
+		r.Check(bad == "", "R-C03-5", k, p.Pos(s.ret.Pos()), "returns a callee's verdict", "VerifyAccess returns a value that is not a callee's verdict: "+bad)
+	}
+	// the policy verdict must be computed for this request's caller/bucket/object/action
+	for _, c := range callsTo(f, fnVerifyBucketPol) {
+		want := []string{"", "Access", "Bucket", "Object", "Action"}
+		args := callArgs(c)
+		for i := 1; i < len(args) && i < len(want); i++ {
+			ok := false
+			for _, rt := range Origins(args[i], nil) {
+				if rt.Kind == "field" && rt.Desc == want[i] {
+					ok = true
+				}
+			}
+			r.Check(ok, "R-C03-5", fnName(f)+"/VerifyBucketPolicy.arg"+itoa(i), p.Pos(c.Pos()), "argument is opts."+want[i], "VerifyBucketPolicy argument #"+itoa(i)+" is not opts."+want[i])
+		}
+	}
+}
+
+func itoa(i int) string { return strconv.Itoa(i) }
+
+// R-C03-6: role gates.
+func c03Roles(p *Program, r *Report) {
+	tab := routeTable(p)
+	const isAdmin = "s3api/middlewares.IsAdmin"
+	for _, srv := range []string{"s3api.New", "s3api.NewAdminServer"} {
+		flat := flattenRoutes(tab, srv)
+		adminUsed := false
+		n := 0
+		for _, e := range flat {
+			if e.Kind == "use" && contains(e.Handlers, isAdmin) && e.Pattern == "" && e.Cond == "" {
+				adminUsed = true
+			}
+			if e.Kind != "route" {
+				continue
+			}
+			for i, h := range e.Handlers {
+				if !strings.HasPrefix(h, "("+ctrlPkg+".AdminController).") {
+					continue
+				}
+				n++
+				ok := adminUsed
+				for _, prev := range e.Handlers[:i] {
+					if prev == isAdmin {
+						ok = true
+					}
+				}
+				r.Check(ok, "R-C03-6", srv+":"+e.Method+" "+e.Pattern+"->"+h, p.Pos(e.Pos), "behind IsAdmin", "admin handler registered without the IsAdmin middleware ahead of it")
+			}
+		}
+		if n < 6 {
+			broken("R-C03-6: only %d admin routes found under %s (expected 6)", n, srv)
+		}
+	}
+	// IsAdmin itself: Next() only through the Role == admin edge
+	if f := p.Func("s3api/middlewares.IsAdmin$1"); f != nil {
+		var cut []edge
+		for _, ce := range condEdgesOf(f) {
+			if ce.atoms["field:Role"] && ce.atoms[`const:"admin"`] && ce.isEqNeq {
+				cut = append(cut, ce.holds)
+			}
+		}
+		for _, c := range callsTo(f, fiberCtx+".Next") {
+			r.Check(len(cut) > 0 && !reachable(f, nil, cut)[c.Block()], "R-C03-6", fnName(f)+"/Next", p.Pos(c.Pos()), "Next() only on Role == admin", "IsAdmin calls Next() on a path where the account role was not tested equal to admin")
+		}
+	}
+	// AclParser: create-bucket Next() behind MayCreateBucket success
+	acl := p.Func("s3api/middlewares.AclParser$1")
+	mcb := callsTo(acl, "auth.MayCreateBucket")
+	gba := []ssa.CallInstruction{}
+	for _, c := range callsIn(acl) {
+		if isBackendCall(c) && c.Common().Method.Name() == "GetBucketAcl" {
+			gba = append(gba, c)
+		}
+	}
+	// Next() calls: each must be (a) behind MayCreateBucket success, or (b) behind GetBucketAcl success
+	// (ACL loaded for the handlers' decisions), or (c) on the frozen pass-through
+	// edges: ListBuckets (GET /) and PATCH (admin API, gated by IsAdmin).
+	var pass []edge
+	for _, ce := range condEdgesOf(acl) {
+		if ce.atoms["call:"+fiberCtx+".Method"] && (ce.atoms[`const:"PATCH"`] || ce.atoms[`const:"GET"`]) && ce.isEqNeq {
+			pass = append(pass, ce.holds)
+		}
+	}
+	nx := callsTo(acl, fiberCtx+".Next")
+	keys := siteKeys(acl, nx)
+	for _, c := range nx {
+		var cut []edge
+		cut = append(cut, pass...)
+		for _, g := range append(append([]ssa.CallInstruction{}, mcb...), gba...) {
+			cut = append(cut, successEdges(g)...)
+		}
+		ok := len(mcb) > 0 && !reachable(acl, nil, cut)[c.Block()]
+		r.Check(ok, "R-C03-6", keys[c], p.Pos(c.Pos()), "Next() behind MayCreateBucket / loaded ACL / frozen pass-through", "AclParser reaches Next() without MayCreateBucket success, a loaded bucket ACL, or the GET-/ and PATCH pass-through")
+	}
+	// the create-bucket Next(): the one not guarded by GetBucketAcl must be guarded by MayCreateBucket alone (plus pass-through)
+	for _, c := range nx {
+		var cutA []edge
+		cutA = append(cutA, pass...)
+		for _, g := range gba {
+			cutA = append(cutA, successEdges(g)...)
+		}
+		if !reachable(acl, nil, cutA)[c.Block()] {
+			continue // behind ACL load or pass-through
+		}
+		var cutM []edge
+		cutM = append(cutM, pass...)
+		for _, g := range mcb {
+			cutM = append(cutM, successEdges(g)...)
+		}
+		r.Check(len(mcb) > 0 && !reachable(acl, nil, cutM)[c.Block()], "R-C03-6", keys[c]+":create", p.Pos(c.Pos()), "create-bucket Next() behind MayCreateBucket", "create-bucket path reaches Next() without MayCreateBucket success")
+	}
+	// MayCreateBucket: nil for isRoot, otherwise only when Role != user
+	mf := p.Func("auth.MayCreateBucket")
+	{
+		var cut []edge
+		for _, ce := range condEdgesOf(mf) {
+			if ce.atoms["param:isRoot"] {
+				cut = append(cut, ce.holds)
+			}
+			if ce.atoms["field:Role"] && ce.atoms[`const:"user"`] && ce.isEqNeq {
+				cut = append(cut, ce.fails)
+			}
+		}
+		for i, s := range errReturnSites(mf) {
+			if isNilConst(s.val) {
+				r.Check(!siteReachable(mf, s, cut), "R-C03-6", fnName(mf)+"/return#"+itoa(i), p.Pos(s.ret.Pos()), "nil only for root or role != user", "MayCreateBucket returns nil without testing isRoot or Role != user")
+			}
+		}
+	}
+	// posix.ListBuckets: appends only behind IsAdmin or owner equality
+	for _, name := range []string{"(*backend/posix.Posix).ListBuckets"} {
+		f := p.Func(name)
+		var cut []edge
+		for _, ce := range condEdgesOf(f) {
+			if ce.atoms["field:IsAdmin"] {
+				cut = append(cut, ce.holds)
+			}
+			if ce.isEqNeq && ce.atoms["field:Owner"] && ce.binop != nil {
+				xa, ya := atomsOf(ce.binop.X), atomsOf(ce.binop.Y)
+				if xa["field:Owner"] && ya["field:Owner"] && (xa["param:input"] != ya["param:input"]) {
+					cut = append(cut, ce.holds)
+				}
+			}
+		}
+		n := 0
+		for _, c := range callsIn(f) {
+			if !isBuiltinCall(c, "append") {
+				continue
+			}
+			if !strings.Contains(typeStr(c.Value().Type()), "ListAllMyBucketsEntry") {
+				continue
+			}
+			n++
+			r.Check(len(cut) > 0 && !reachable(f, nil, cut)[c.Block()], "R-C03-6", name+"/append#"+itoa(n), p.Pos(c.Pos()), "append behind IsAdmin or acl.Owner == input.Owner", "a bucket is added to the ListBuckets result without the IsAdmin or owner-equality test")
+		}
+		if n == 0 {
+			broken("R-C03-6: no result append found in %s", name)
+		}
+	}
+}
+
+var _ = sort.Strings
